@@ -4,8 +4,8 @@ from ..gen.checks import GenCheck, COMMON_ASSUMPTIONS
 
 ENGINE = "dgen+refsem"
 TECHNIQUE = "runtime monitoring: random well-formed designs emitted as real Transactron objects, simulated under hostile input valuations; per-cycle oracle = independent reference semantics over sampled run/data/witness signals"
-CHECK = GenCheck("C04", ("C04:",), {"nonex_weight": 1.5, "p_deepchain": 0.4}, scheds=("eager", "rr"), library=True, cond=True, nontrivial_counter="method_idle_while_a_caller_ran")
+CHECK = GenCheck("C04", ("C04:",), {"nonex_weight": 1.5, "p_deepchain": 0.4}, scheds=("eager", "rr"), library=True, suite=True, cond=True, nontrivial_counter="method_idle_while_a_caller_ran")
 shards, run_shard = CHECK.shards, CHECK.run_shard
 ASSUMPTIONS = COMMON_ASSUMPTIONS
-RULE = ("[plus condition() designs of the cond profile, where nested branch transactions are merged with their enclosing body] [plus a realistic second workload: library components (FIFOs, stack, connectors, memories, CAM, allocators, metrics) under the hostile component driver with the design-independent transaction sanitizer vf/txsan.py attached] random well-formed designs (multi-level chains, nonexclusive methods with several simultaneous callers, provided/aliased methods, nested methods called by other transactions, uncalled methods); oracle: run[M] == OR of active call sites; uncalled methods never run; nested bodies run only with their enclosing body; non-trivial design = some cycle where a method stayed idle although a caller body ran (disabled call); distinct = (design shape signature, scheduler)")
+RULE = ("[plus the repository's own tests run with the transaction sanitizer attached to every simulator they create - two files in the quick tier, the whole suite in the thorough tier; test outcomes are not verdicts] [plus condition() designs of the cond profile, where nested branch transactions are merged with their enclosing body] [plus a realistic second workload: library components (FIFOs, stack, connectors, memories, CAM, allocators, metrics) under the hostile component driver with the design-independent transaction sanitizer vf/txsan.py attached] random well-formed designs (multi-level chains, nonexclusive methods with several simultaneous callers, provided/aliased methods, nested methods called by other transactions, uncalled methods); oracle: run[M] == OR of active call sites; uncalled methods never run; nested bodies run only with their enclosing body; non-trivial design = some cycle where a method stayed idle although a caller body ran (disabled call); distinct = (design shape signature, scheduler)")
 MINIMA = {"quick": {"cycles": 8000, "method_run_cycles": 2000, "method_idle_while_a_caller_ran": 300, "nonexclusive_multi_caller_cycles": 100, "distinct": 15}, "thorough": {"cycles": 1000000, "distinct": 400}}
